@@ -125,6 +125,9 @@ func cmdHist(args []string) int {
 	if f.Extra["features"] == "pcev" {
 		prof.Features = []Feat{allOn, {true, true, false, false, false}, {true, true, true, false, true}}
 	}
+	if f.Extra["profile"] == "ik" {
+		prof.IKHeavy = true
+	}
 	if f.Extra["profile"] == "postings" {
 		prof.PostingsHeavy = true
 	}
@@ -238,6 +241,9 @@ func parseHistCase(line string) (Feat, []Op) {
 			o.TxID = atoi(in.List[1].Atom)
 			o.Force = in.List[2].Atom == "1"
 			o.AtEff = in.List[3].Atom == "1"
+			if len(in.List) > 4 {
+				o.Meta = parseKV(in.List[4])
+			}
 		case "setmeta":
 			tgt(in.List[1])
 			o.Meta = parseKV(in.List[2])
